@@ -6,16 +6,23 @@
    EVERY live object after the call:
        kind, b = flattened bytes (ToView() / the View / Prependable.View()),
        bv = concatenation of Views(), size = Size() / len / UsedLength(),
-       ext = the bytes gained by re-slicing every view up to its capacity.
+       ext = the bytes gained by re-slicing every view up to its capacity,
+       views = the same per view: <<[b, ext], ...>> (what CapLength needs to know to say
+       which bytes lie beyond the cap; taken from the observation BEFORE the call).
    After every step every object must be exactly the byte string the P-spec
    says (so objects the call did not address - clones in particular - must not
    have moved), sizes must be the lengths, and no byte cut off by a CapLength
    may show up in ext.  A `panic` event matches no action: rejected. *)
 EXTENDS BufferP, TraceIO
-tvars == <<abs, cut, l>>
+VARIABLE prev            \* objs of the last event: the objects as seen before the next call
+tvars == <<abs, cut, l, prev>>
 
 RECURSIVE CatAll(_, _)
 CatAll(cs, i) == IF i > Len(cs) THEN <<>> ELSE cs[i] \o CatAll(cs, i + 1)
+RECURSIVE CatB(_, _)
+CatB(vs, i) == IF i > Len(vs) THEN <<>> ELSE vs[i].b \o CatB(vs, i + 1)
+RECURSIVE CatE(_, _)
+CatE(vs, i) == IF i > Len(vs) THEN <<>> ELSE vs[i].ext \o CatE(vs, i + 1)
 
 Obs == LET e == Ev IN
        /\ Len(e.objs) = Len(abs')
@@ -26,21 +33,23 @@ Obs == LET e == Ev IN
             /\ x.bv = abs'[s].b
             /\ x.size = Len(abs'[s].b)
             /\ SeqToSet(x.ext) \cap cut'[s] = {}
+            /\ x.kind # "prep" => (CatB(x.views, 1) = x.bv /\ CatE(x.views, 1) = x.ext)   \* the log is consistent
+       /\ prev' = e.objs
 
-TInit == PInit /\ l = 1 /\ HWInit
-Reset == IsEvent("reset") /\ abs' = <<>> /\ cut' = <<>>
+TInit == PInit /\ l = 1 /\ prev = <<>> /\ HWInit
+Reset == IsEvent("reset") /\ abs' = <<>> /\ cut' = <<>> /\ prev' = <<>>
 
 ENewVV        == IsEvent("NewVV")        /\ PNew("vv", CatAll(Ev.chunks, 1), 0)   /\ Obs
 ENewView      == IsEvent("NewView")      /\ PNew("view", Ev.data, 0)             /\ Obs
 ENewPrep      == IsEvent("NewPrep")      /\ Ev.n >= 0 /\ PNew("prep", <<>>, Ev.n) /\ Obs
 EVTrim        == IsEvent("VTrim")        /\ PTrim(Ev.o, Ev.n)                     /\ Obs
-EVCap         == IsEvent("VCap")         /\ PCap(Ev.o, Ev.n)                      /\ Obs
+EVCap         == IsEvent("VCap")         /\ PCap(Ev.o, Ev.n, prev[Ev.o].views)   /\ Obs
 EVRemoveFirst == IsEvent("VRemoveFirst") /\ PRemoveFirst(Ev.o, Ev.k)              /\ Obs   \* k = len(First()) before the call
 EVClone       == IsEvent("VClone")       /\ PClone(Ev.o)                          /\ Obs
 EVToView      == IsEvent("VToView")      /\ PFlatten(Ev.o)                        /\ Obs
 EVFirst       == IsEvent("VFirst")       /\ PFirst(Ev.o, Ev.f)                    /\ Obs   \* f = the bytes of the returned view
 EWTrim        == IsEvent("WTrim")        /\ PWTrim(Ev.o, Ev.n)                    /\ Obs
-EWCap         == IsEvent("WCap")         /\ PWCap(Ev.o, Ev.n)                     /\ Obs
+EWCap         == IsEvent("WCap")         /\ PWCap(Ev.o, Ev.n, prev[Ev.o].views)  /\ Obs
 EWToVV        == IsEvent("WToVV")        /\ PToVV(Ev.o)                           /\ Obs
 EWToPrep      == IsEvent("WToPrep")      /\ PToPrep(Ev.o)                         /\ Obs
 EPrepend      == /\ IsEvent("Prepend")
